@@ -224,6 +224,12 @@ func genTamper(g *Rng, tier string) *Plan {
 			}
 			spec.Assertions = append(spec.Assertions, a)
 		}
+		if g.Bool(0.2) {
+			spec.Pretty = true
+			for ai := range spec.Assertions {
+				spec.Assertions[ai].Pretty = true
+			}
+		}
 		st.Spec = spec
 		if st.Entry == "artifact" && g.Bool(0.5) {
 			st.ArtSign, st.ArtKey = true, signKey
